@@ -356,7 +356,7 @@ WRAP = dict(extra_src=("wrap_alloc.c",), extra_ld=("-Wl,--wrap=malloc,--wrap=cal
 # --------------------------------------------------------------------------- C08
 def C08(tier):
     c = Check("C08", tier)
-    n = sz(tier, 4000, 300_000)
+    n = sz(tier, 4000, 100_000)
     count = per_shard(n)
     c.spec("bitmap-rel", "rel", "drv_bitmap", "c08", count, build_kw=WRAP)
     c.spec("bitmap-asan", "asan", "drv_bitmap", "c08", count, shards=sz(tier, [0, 1, 2], [0, 1, 2, 3]), build_kw=WRAP)
